@@ -2,6 +2,7 @@ import GomlVerif.Model.Lower
 import GomlVerif.Model.Resolve
 import GomlVerif.Lemmas.LowerStack
 import GomlVerif.Lemmas.LowerOk
+import GomlVerif.Lemmas.LowerOkFn
 /-!
 # CST→AST lowering — properties of `Model/Lower.lean`
 
@@ -113,6 +114,19 @@ theorem lower_ctor_iff_arm (C D : List String) (n : Nat) (node : Cst) (s : St) (
   have hk : OkArm C s.locals (.mk p b) := ((coreOk C n).arm node s.locals s rfl).2.2 _ h
   rw [patNames_scopePat]
   exact ⟨hk.1, conOk_expr D _ _ hk.1⟩
+
+/-- … and for a whole function (`lower_fn`, also the methods of an `impl`): lowered at top level (empty stack), its body
+is classified under exactly its parameter names — the scope `Resolve.specFn` / `resolveFn` start from. So `conOkExpr`,
+the hypothesis of `resolve_refines_spec` / `resolveFn_refines_spec`, holds of every function the lowering model produces. -/
+theorem lower_ctor_iff_fn (C D : List String) (n : Nat) (node : Cst) (s : St) (f : FnDef)
+    (hs : s.locals = []) (h : (lowerFn C n node s).1 = some f) :
+    classOkExpr C (f.params.map (·.1)) (scopeOf f.body) = true ∧
+      Resolve.conOkExpr ⟨C, D⟩ (f.params.map (·.1)) (scopeOf f.body) = true ∧
+      (lowerFn C n node s).2.locals = [] := by
+  have hb := ok_lowerFn (C := C) n node [] s hs
+  have hk := hb.2.2 f h
+  simp only [List.nil_append] at hk
+  exact ⟨hk.1, conOk_expr D _ _ hk.1, hb.1⟩
 
 /-! ## non-vacuity: concrete trees -/
 
